@@ -8,6 +8,8 @@ package main
 
 import (
 	"fmt"
+	"os"
+	"go/token"
 	"go/types"
 	"sort"
 	"strconv"
@@ -325,4 +327,211 @@ func checkDecoderLimits(r *Report, rule string) {
 		}
 	}
 	r.floor(rule, n, 2, "decode mode constructions")
+}
+
+// constGlobalValue: the value of an unexported package variable that is a
+// constant of the program: every store to it (or below it) is in the package
+// initialiser, in one block; no function's effect summary writes memory
+// reached through it; its address is only used to load from or to address
+// fields/elements that are loaded; and the stored value is closed (constants,
+// literals of constants). nil otherwise.
+func (P *Prog) constGlobalValue(name string) *Term {
+	if v, ok := P.constGlobals[name]; ok {
+		return v
+	}
+	if P.constGlobals == nil {
+		P.constGlobals = map[string]*Term{}
+	}
+	P.constGlobals[name] = nil
+	g := P.global(name)
+	if g == nil || g.Object() == nil || g.Object().Exported() {
+		if os.Getenv("CG_DEBUG") != "" {
+		println("constGlobal", name, 1)
+	}
+	return nil
+	}
+	sts := P.globalStores(g)
+	if len(sts) == 0 {
+		if os.Getenv("CG_DEBUG") != "" {
+		println("constGlobal", name, 2)
+	}
+	return nil
+	}
+	for _, st := range sts {
+		if !isInitFunc(st.Parent()) || st.Block() != sts[0].Block() {
+			if os.Getenv("CG_DEBUG") != "" {
+		println("constGlobal", name, 3)
+	}
+	return nil
+		}
+	}
+	for _, fn := range P.Funcs {
+		if isInitFunc(fn) {
+			continue
+		}
+		for _, w := range P.effects.summary(fn).writes {
+			if w.kind == "global" && w.global == name {
+				if os.Getenv("CG_DEBUG") != "" {
+		println("constGlobal", name, 4)
+	}
+	return nil
+			}
+		}
+	}
+	// address uses
+	var okAddr func(v ssa.Value, inInit bool) bool
+	okAddr = func(v ssa.Value, inInit bool) bool {
+		refs := v.Referrers()
+		if refs == nil {
+			return true
+		}
+		for _, ref := range *refs {
+			switch u := ref.(type) {
+			case *ssa.UnOp:
+				if u.Op != token.MUL {
+					return false
+				}
+			case *ssa.Store:
+				if u.Addr != v || !inInit {
+					return false
+				}
+			case *ssa.FieldAddr:
+				if !okAddr(u, inInit) {
+					return false
+				}
+			case *ssa.IndexAddr:
+				if u.X != v || !okAddr(u, inInit) {
+					return false
+				}
+			case *ssa.DebugRef:
+			default:
+				return false
+			}
+		}
+		return true
+	}
+	for _, fn := range P.allFuncsInclInit() {
+		for _, b := range fn.Blocks {
+			for _, in := range b.Instrs {
+				for _, op := range in.Operands(nil) {
+					if *op != ssa.Value(g) {
+						continue
+					}
+					switch u := in.(type) {
+					case *ssa.UnOp:
+						if u.Op != token.MUL {
+							if os.Getenv("CG_DEBUG") != "" {
+		println("constGlobal", name, 5)
+	}
+	return nil
+						}
+					case *ssa.Store:
+						if u.Addr != ssa.Value(g) || !isInitFunc(fn) {
+							if os.Getenv("CG_DEBUG") != "" {
+		println("constGlobal", name, 6)
+	}
+	return nil
+						}
+					case *ssa.FieldAddr:
+						if !okAddr(u, isInitFunc(fn)) {
+							if os.Getenv("CG_DEBUG") != "" {
+		println("constGlobal", name, 7)
+	}
+	return nil
+						}
+					case *ssa.IndexAddr:
+						if !okAddr(u, isInitFunc(fn)) {
+							if os.Getenv("CG_DEBUG") != "" {
+		println("constGlobal", name, 8)
+	}
+	return nil
+						}
+					default:
+						if os.Getenv("CG_DEBUG") != "" {
+		println("constGlobal", name, 9)
+	}
+	return nil
+					}
+				}
+			}
+		}
+	}
+	blk := sts[0].Block()
+	v := P.terms.loadPath(g, nil, blk.Instrs[len(blk.Instrs)-1])
+	// before the initialiser runs the variable holds its zero value
+	v = v.rewrite(func(u *Term) *Term {
+		if u.Op == "load" && u.Args[0].Op == "global" && u.Args[0].S == name {
+			return T("zero", "")
+		}
+		return nil
+	})
+	if !closedConst(v) {
+		if os.Getenv("CG_DEBUG") != "" {
+		println("constGlobal", name, 10, v.String())
+	}
+	return nil
+	}
+	P.constGlobals[name] = v
+	return v
+}
+
+// closedConst: built from constants and literals only.
+func closedConst(t *Term) bool {
+	if t == nil {
+		return false
+	}
+	switch t.Op {
+	case "const", "nil", "zero", "arr", "update", "struct":
+	default:
+		return false
+	}
+	for _, a := range t.Args {
+		if !closedConst(a) {
+			return false
+		}
+	}
+	return true
+}
+
+// foldGlobals replaces loads of constant package variables (constGlobalValue),
+// or of fields / constant-index elements below them, by their values.
+func (P *Prog) foldGlobals(t *Term) *Term {
+	if t == nil || !t.contains(func(u *Term) bool { return u.Op == "global" }) {
+		return t
+	}
+	return t.rewrite(func(u *Term) *Term {
+		if u.Op != "load" {
+			return nil
+		}
+		var path []string
+		a := u.Args[0]
+		for {
+			switch a.Op {
+			case "field":
+				path = append([]string{a.S}, path...)
+				a = a.Args[0]
+				continue
+			case "index":
+				if a.Args[1].Op != "const" || a.Args[0].Op == "load" {
+					return nil
+				}
+				path = append([]string{"[" + a.Args[1].S + "]"}, path...)
+				a = a.Args[0]
+				continue
+			}
+			break
+		}
+		if a.Op != "global" {
+			return nil
+		}
+		v := P.constGlobalValue(a.S)
+		if v == nil {
+			return nil
+		}
+		r := projectPath(v, path)
+		if !closedConst(r) {
+			return nil
+		}
+		return r
+	})
 }
